@@ -543,3 +543,29 @@ package sipsp
 //@   ensures[C14] "error-offset": err != 0 ==> 0 <= n && n <= len(uri)
 //@   ensures[C10] "port-exact": err == 0 ==> portExact(uri, puri)
 //@   ensures err == 0 && (puri.URIType != TELuri || puri.Pass.Offs == 0) ==> uriOK(puri)
+
+// ---- token parameters (C17) ----
+
+//@ func SkipQuoted(buf, offs) (n, err)
+//@   law[C02] RES(buf, offs)
+//@   law[C03,C02] EXT(buf)
+//@   requires bufOK(buf) && 0 <= offs && offs <= len(buf)
+//@   loop 0 "for i < len(buf)"
+//@     invariant offs <= i && i <= len(buf)
+//@     invariant forall(k, offs, i, !isCRLF(buf[k]))
+//@     decreases len(buf) - i
+//@   ensures offs <= n && n <= len(buf)
+//@   ensures err == ErrHdrOk || err == ErrHdrMoreBytes || err == ErrHdrBadChar
+//@   ensures[C17] "quoted-complete": err == ErrHdrOk ==> n > offs && buf[n-1] == '"' && forall(k, offs, n, !isCRLF(buf[k]))
+//@   ensures err == ErrHdrMoreBytes ==> n == len(buf) || (n+1 == len(buf) && buf[n] == '\\')
+
+//@ func ParseTokenParam(buf, offs, param, flags) (n, err)
+//@   requires bufOK(buf) && 0 <= offs && offs <= len(buf) && param != nil && ptOK(param, offs)
+//@   modifies *param
+//@   loop 0 "for i < len(buf)"
+//@     invariant offs <= i && i <= len(buf) && ptOK(param, i) && param.state != vpFIN
+//@     decreases len(buf) - i
+//@   ensures 0 <= n && n <= len(buf)
+//@   ensures err == ErrHdrOk || err == ErrHdrMoreBytes || err == ErrHdrMoreValues || err == ErrHdrEOH ==> offs <= n
+//@   ensures ptWithin(param, len(buf))
+//@   ensures err == ErrHdrMoreBytes ==> ptOK(param, n)
